@@ -183,14 +183,15 @@ def plan_jobs(prop, tier, rnd):
             lang = rnd.choice([l for l in langs["jp"] if l in ("en", "kl", "ja")] or ["en"])
         elif rnd.random() < 0.3 and langs[country]:
             lang = rnd.choice(langs[country])
+        si = i + i // 6       # (shifted by one every round of the countries: each country meets each window shape)
         if prop in ("C15", "C07"):
-            shape = ["none", "to", "none", "to"][i % 4]
+            shape = ["none", "to", "none", "to"][si % 4]
         elif prop == "C19":
-            shape = ["from", "fromto", "none", "from", "to"][i % 5]
+            shape = ["from", "fromto", "none", "from", "to"][si % 5]
         elif prop == "C20":
-            shape = ["none", "none", "from", "to"][i % 4]
+            shape = ["none", "none", "from", "to"][si % 4]
         else:
-            shape = ["none", "from", "to", "fromto"][i % 4]
+            shape = ["none", "from", "to", "fromto"][si % 4]
         if prop == "C13" and i % 4 == 1:
             shape = "none" if (i // 4) % 3 else "to"      # (a from-date would hide the revisited lot's row)
         if country == "jp" and shape == "fromto":
